@@ -91,12 +91,40 @@ class VerusOutcome:
         self.units = []
 
 
-def run_verus_engine(prop, spec, tier, keep_going=True):
+class _SatSpec:
+    """A satellite: named units of ANOTHER property's spec, verified (in a verification file of their own) as part
+    of this property's check because this property depends on the same functions."""
+    def __init__(self, src_spec, names):
+        self.PRELUDE = src_spec.PRELUDE
+        by = {u.name: u for u in src_spec.UNITS}
+        missing = [n for n in names if n not in by]
+        if missing:
+            raise LostAnchor("satellite units not found in the source spec: %s" % missing)
+        self.UNITS = [by[n] for n in names]
+        self.RLIMIT = getattr(src_spec, "RLIMIT", 30)
+
+
+def merge_outcome(vo, so):
+    vo.undecided += so.undecided
+    vo.rewrites += so.rewrites
+    vo.units += so.units
+    vo.assumptions += [a for a in so.assumptions if a not in vo.assumptions]
+    vo.clauses += so.clauses
+    vo.cmd = (vo.cmd + " ;; " + so.cmd) if so.cmd else vo.cmd
+    vo.wall += so.wall
+    vo.functions += so.functions
+    vo.smt_ms += so.smt_ms
+    vo.failed += so.failed
+    vo.canary_ok += so.canary_ok
+    vo.canary_bad += so.canary_bad
+
+
+def run_verus_engine(prop, spec, tier, keep_going=True, spec_dir=None, build_name=None):
     vo = VerusOutcome()
-    bdir = os.path.join(BUILD, prop)
+    bdir = os.path.join(BUILD, build_name or prop)
     os.makedirs(bdir, exist_ok=True)
     out_path = os.path.join(bdir, "units.rs")
-    sdir = os.path.join(ROOT, "specs", prop)
+    sdir = os.path.join(ROOT, "specs", spec_dir or prop)
     preludes = [os.path.normpath(os.path.join(sdir, p)) for p in spec.PRELUDE]
     try:
         linemap, rwlog = extract.assemble(preludes, spec.UNITS, out_path)
@@ -270,6 +298,16 @@ def main(argv):
     vo = None
     if getattr(spec, "UNITS", None) or getattr(spec, "PRELUDE", None):
         vo = run_verus_engine(prop, spec, args.tier)
+        sat_units = []
+        for (src, names) in getattr(spec, "SATELLITES", []):
+            try:
+                sspec = _SatSpec(importlib.import_module("specs.%s.spec" % src), names)
+            except LostAnchor as e:
+                vo.undecided.append("lost anchor: %s" % e)
+                continue
+            merge_outcome(vo, run_verus_engine(prop, sspec, args.tier, spec_dir=src, build_name="%s+%s" % (prop, src)))
+            sat_units += sspec.UNITS
+        spec.SAT_UNITS = sat_units
         undecided += vo.undecided
         for f in vo.failed:
             k = [k for k in known if k["obligation"] == f["obligation"]]
@@ -382,7 +420,7 @@ def write_evidence(prop, spec, tier, seed, vo, ko, violations, known_hits, undec
         checker_cmds.append(vo.cmd)
         trusted += TRUSTED_BASE_V
         assumptions += ["verus: " + a for a in vo.assumptions]
-        for u in spec.UNITS:
+        for u in list(spec.UNITS) + list(getattr(spec, "SAT_UNITS", [])):
             functions += u.functions
         cov["verus"] = {
             "functions_checked": [{"function": f[0], "mode": f[1], "discharged": f[2], "smt_us": f[3], "rlimit": f[4]} for f in fs],
